@@ -3,6 +3,7 @@ import GfsModel.OpsHist
 import GfsModel.OpsList
 import GfsModel.OpsFuzz
 import GfsModel.OpsDisk
+import GfsModel.OpsHuge
 
 namespace Gfs.Ops
 open Gfs.Proto
@@ -25,6 +26,9 @@ def dispatch (f : List String) : Obs × Option Obs :=
           | none =>
             match dispatchDisk f with
             | some r => r
-            | none => ([("bad-op", "1")], none)
+            | none =>
+              match dispatchHuge f with
+              | some r => r
+              | none => ([("bad-op", "1")], none)
 
 end Gfs.Ops
